@@ -73,15 +73,19 @@ def visitor_prop_tests(ti: int, oi: int, has_not: bool, c: int) -> bool:
 
 
 # ---------------------------------------------------------------- generator of valid 2.1 patterns with their own syntax tree
-PATHS = ["a:b", "a:b.c", "a:b[1].c", "a:b[*]", "a:'k-1'.c", "file:hashes.'SHA-256'", "a:b_ref.c", "a:b.'c d'", "a:b.'clé'", "a:'ключ'.c", "a:b.'straße_2'.c", "a:b.'k-1'[*]", "a:b.'c d'[*].e", "a:'k-1'[*].c", "a:b.'k-1'[2].c"]
+PATHS = ["a:b", "a:b.c", "a:b[1].c", "a:b[*]", "a:'k-1'.c", "file:hashes.'SHA-256'", "a:b_ref.c", "a:b.'c d'", "a:b.'clé'", "a:'ключ'.c", "a:b.'straße_2'.c", "a:b.'k-1'[*]", "a:b.'c d'[*].e", "a:'k-1'[*].c", "a:b.'k-1'[2].c",
+         # quoted steps whose text needs escapes (a quote, a backslash), as last step, before another step, before an index
+         "a:b.'it\\'s'", "a:b.'back\\\\slash'.c", "a:'q\\'x'[1]", "a:b.'it\\'s'[*].c"]
 NPATH = len(PATHS)
 CMP_OPS = ["=", "!=", ">", "<", ">=", "<=", "IN", "LIKE", "MATCHES", "ISSUBSET", "ISSUPERSET"]
 CONSTS = {  # constant text per kind; the printed form may normalise it (CANON)
     "int": "1", "neg": "-7", "float": "1.5", "str": "'x'", "esc": "'it\\'s \\\\ q'", "bool": "true", "hex": "h'0a'", "bin": "b'YWJj'",
     "ts": "t'2020-01-01T00:00:00.5Z'", "set": "(1, 2)", "sset": "('a', 'b')",
+    # floats with more digits than a fixed format keeps, and of magnitudes Python writes with an exponent (which the grammar does not have)
+    "float7": "0.1234567", "fsmall": "0.00001", "fneg": "-0.000000123", "fbig": "12345678901234567000.0", "f17": "2.00000025", "fset": "(0.1234567, 0.00001)",
 }
-KINDS_FOR = {"=": ["int", "neg", "float", "str", "esc", "bool", "hex", "bin", "ts"], "!=": ["int", "str"], ">": ["int", "float", "ts"], "<": ["int"],
-             ">=": ["int"], "<=": ["neg"], "IN": ["set", "sset"], "LIKE": ["str", "esc"], "MATCHES": ["str"], "ISSUBSET": ["str"], "ISSUPERSET": ["str"]}
+KINDS_FOR = {"=": ["int", "neg", "float", "str", "esc", "bool", "hex", "bin", "ts", "float7", "fsmall", "fneg", "fbig", "f17"], "!=": ["int", "str"], ">": ["int", "float", "ts", "fsmall"], "<": ["int"],
+             ">=": ["int"], "<=": ["neg"], "IN": ["set", "sset", "fset"], "LIKE": ["str", "esc"], "MATCHES": ["str"], "ISSUBSET": ["str"], "ISSUPERSET": ["str"]}
 ATOMS = [(op, k) for op in CMP_OPS for k in KINDS_FOR[op]]
 NATOM = len(ATOMS)
 NA_BOOL = 8 if TIER == "quick" else NATOM      # atoms used as the varying operand in structure obligations
